@@ -143,4 +143,11 @@ var checks = map[string]*Check{
 		Assumptions: commonAssumptions,
 		RealStub:    coreRealStub,
 	},
+	"C14": {
+		Legs:        []Leg{{World: "C14", Weight: 1}},
+		Probes:      []string{"shim_script_injected", "banner_frame_served", "non_html_untouched", "already_framed_original_body", "head_straddles_first_kilobyte"},
+		Rule:        "Raw client -> real proxy -> real agent with -inject-banner and/or -shim-websockets -> raw scripted backend; the backend's own response is the reference. Generated: method, Accept, Sec-Fetch-Dest/Mode, Referer; status; Content-Type from unambiguous HTML and non-HTML families; Content-Disposition; bodies with <head> at offsets around 0 and the first kilobyte, repeated, upper-case or truncated; backend write boundaries through <head>; SimNet segmentation up to 80%. Input-dominated; the simulated dimension is how the body is split across reads.",
+		Assumptions: commonAssumptions,
+		RealStub:    coreRealStub,
+	},
 }
